@@ -14,17 +14,28 @@
 pub(crate) mod verif_noise {
     use super::*;
     use crate::errors::{ChaPolyDecryptError, DhError};
+    use crate::vrep;
 
     pub static mut MODE: u8 = 0; // 0 = record (initiator), 1 = replay (responder), 2 = free (unconstrained results)
     pub static mut DIVERGED: bool = false; // a replayed call presented arguments different from the recorded ones
 
+    // loop-free comparison of the first n bytes (n a multiple of 4, <= 128): the code under test iterates over a
+    // heap-allocated token list, so the global unwind bound must stay small and harness code may not loop.
+    fn eq16(a: &[u8], b: &[u8]) -> bool {
+        u128::from_le_bytes(a[..16].try_into().unwrap()) == u128::from_le_bytes(b[..16].try_into().unwrap())
+    }
+    fn eq4(a: &[u8], b: &[u8]) -> bool {
+        u32::from_le_bytes(a[..4].try_into().unwrap()) == u32::from_le_bytes(b[..4].try_into().unwrap())
+    }
     fn eq(a: &[u8], b: &[u8], n: usize) -> bool {
-        let mut ok = a.len() >= n && b.len() >= n;
-        let mut j = 0;
-        while j < n { if ok && a[j] != b[j] { ok = false; } j += 1; }
+        if a.len() < n || b.len() < n || n > 128 || n % 4 != 0 { return false; }
+        let mut ok = true;
+        let q = n / 16;
+        vrep!(8, c, { if c < q && !eq16(&a[c * 16..], &b[c * 16..]) { ok = false; } });
+        let t = (n % 16) / 4;
+        vrep!(3, c, { if c < t && !eq4(&a[q * 16 + c * 4..], &b[q * 16 + c * 4..]) { ok = false; } });
         ok
     }
-
     // ---- SHA-256 -----------------------------------------------------------------------------
     pub const NSHA: usize = 5;
     pub static mut SHA_IN: [[u8; 80]; NSHA] = [[0; 80]; NSHA];
@@ -209,7 +220,7 @@ pub(crate) mod verif_noise {
     #[kani::stub(crate::x25519, dh_model)]
     #[kani::stub(crate::chapoly_encrypt_noise, seal_model)]
     #[kani::stub(crate::chapoly_decrypt_noise, open_model)]
-    #[kani::unwind(82)]
+    #[kani::unwind(6)]
     pub fn noise_x_lockstep() {
         let prologue: [u8; 4] = kani::any();
         let (s_priv, s_pub, e_priv, e_pub, r_priv, rs, payload): ([u8; 32], [u8; 32], [u8; 32], [u8; 32], [u8; 32], [u8; 32], [u8; 32]) =
@@ -234,21 +245,21 @@ pub(crate) mod verif_noise {
             assert!(eq(&w.message, &e_pub, 32), "[C06,C08] message begins with the ephemeral public key in clear");
             assert!(cat_eq(2, &SHA_OUT[1], &e_pub), "[C06,C05] token e: MixHash(e.public)");
             // es
-            assert!(DH_K[0] == e_priv && DH_U[0] == rs, "[C06,C05] token es: DH(ephemeral private, recipient static public)");
-            assert!(HK_CK[0] == z && HK_IKMLEN[0] == 32 && HK_IKM[0] == DH_OUT[0], "[C06,C05] MixKey(es): HKDF(ck = h0, DH result)");
+            assert!(eq(&DH_K[0], &e_priv, 32) && eq(&DH_U[0], &rs, 32), "[C06,C05] token es: DH(ephemeral private, recipient static public)");
+            assert!(eq(&HK_CK[0], &z, 32) && HK_IKMLEN[0] == 32 && eq(&HK_IKM[0], &DH_OUT[0], 32), "[C06,C05] MixKey(es): HKDF(ck = h0, DH result)");
             // s
-            assert!(AE_KEY[0] == HK_O2[0] && AE_NONCE[0] == 0 && AE_AD[0] == SHA_OUT[2] && AE_PT[0] == s_pub, "[C06,C05] token s: EncryptAndHash(sender static public) under the es key, nonce 0, AD = h");
+            assert!(eq(&AE_KEY[0], &HK_O2[0], 32) && AE_NONCE[0] == 0 && eq(&AE_AD[0], &SHA_OUT[2], 32) && eq(&AE_PT[0], &s_pub, 32), "[C06,C05] token s: EncryptAndHash(sender static public) under the es key, nonce 0, AD = h");
             assert!(eq(&w.message[32..], &AE_CT[0], 48), "[C06,C08] encrypted static key follows e");
             assert!(cat_eq(3, &SHA_OUT[2], &AE_CT[0]), "[C06,C05] MixHash(encrypted s)");
             // ss
-            assert!(DH_K[1] == s_priv && DH_U[1] == rs, "[C06,C05] token ss: DH(sender static private, recipient static public)");
-            assert!(HK_CK[1] == HK_O1[0] && HK_IKMLEN[1] == 32 && HK_IKM[1] == DH_OUT[1], "[C06,C05] MixKey(ss): HKDF(ck from es, DH result)");
+            assert!(eq(&DH_K[1], &s_priv, 32) && eq(&DH_U[1], &rs, 32), "[C06,C05] token ss: DH(sender static private, recipient static public)");
+            assert!(eq(&HK_CK[1], &HK_O1[0], 32) && HK_IKMLEN[1] == 32 && eq(&HK_IKM[1], &DH_OUT[1], 32), "[C06,C05] MixKey(ss): HKDF(ck from es, DH result)");
             // payload
-            assert!(AE_KEY[1] == HK_O2[1] && AE_NONCE[1] == 0 && AE_AD[1] == SHA_OUT[3] && AE_PT[1] == payload, "[C06,C05] payload: EncryptAndHash under the ss key, nonce reset to 0, AD = h");
+            assert!(eq(&AE_KEY[1], &HK_O2[1], 32) && AE_NONCE[1] == 0 && eq(&AE_AD[1], &SHA_OUT[3], 32) && eq(&AE_PT[1], &payload, 32), "[C06,C05] payload: EncryptAndHash under the ss key, nonce reset to 0, AD = h");
             assert!(w.message.len() == 128 && eq(&w.message[80..], &AE_CT[1], 48), "[C06,C08] message = e || enc(s) || enc(payload), 128 bytes");
             assert!(cat_eq(4, &SHA_OUT[3], &AE_CT[1]), "[C06,C05] MixHash(encrypted payload)");
-            assert!(w.handshake_hash == SHA_OUT[4], "[C06,C01] handshake hash = final h");
-            assert!(HK_CK[2] == HK_O1[1] && HK_IKMLEN[2] == 0, "[C06] Split(): HKDF(ck, empty)");
+            assert!(eq(&w.handshake_hash, &SHA_OUT[4], 32), "[C06,C01] handshake hash = final h");
+            assert!(eq(&HK_CK[2], &HK_O1[1], 32) && HK_IKMLEN[2] == 0, "[C06] Split(): HKDF(ck, empty)");
         }
         // ---------------- phase 2: responder (static key pair (r_priv, rs)), replay
         unsafe {
@@ -269,7 +280,7 @@ pub(crate) mod verif_noise {
         assert!(rd.message.len() == 32 && eq(&rd.message, &payload, 32), "[C01] the payload key comes back unchanged");
         let pk = hr.get_pubkey();
         assert!(pk.is_some() && eq(pk.as_ref().unwrap().as_bytes(), &s_pub, 32), "[C01,C05] the responder reports exactly the sender's static public key");
-        assert!(rd.handshake_hash == w.handshake_hash, "[C01,C06] both sides derive the same handshake hash");
+        assert!(eq(&rd.handshake_hash, &w.handshake_hash, 32), "[C01,C06] both sides derive the same handshake hash");
         assert!(hs.get_pubkey().is_none(), "[C05] the initiator side never reports a sender key");
         core::mem::forget(hs); core::mem::forget(hr); core::mem::forget(w); core::mem::forget(rd); core::mem::forget(pk);
     }
@@ -280,7 +291,7 @@ pub(crate) mod verif_noise {
     #[kani::stub(crate::hkdf_noise, hkdf_model)]
     #[kani::stub(crate::x25519, dh_model)]
     #[kani::stub(crate::chapoly_encrypt_noise, seal_model)]
-    #[kani::unwind(82)]
+    #[kani::unwind(6)]
     pub fn noise_dh_refusal() {
         let (s_priv, s_pub, e_priv, e_pub, rs, payload): ([u8; 32], [u8; 32], [u8; 32], [u8; 32], [u8; 32], [u8; 32]) =
             (kani::any(), kani::any(), kani::any(), kani::any(), kani::any(), kani::any());
@@ -309,7 +320,7 @@ pub(crate) mod verif_noise {
     #[kani::stub(crate::hkdf_noise, hkdf_model)]
     #[kani::stub(crate::x25519, dh_model)]
     #[kani::stub(crate::chapoly_decrypt_noise, open_model)]
-    #[kani::unwind(66)]
+    #[kani::unwind(6)]
     pub fn noise_decrypt_any_len() {
         unsafe { MODE = 2; }
         let msg: [u8; 140] = kani::any();
